@@ -21,6 +21,7 @@ fn space_for(tier: Tier) -> (Space, usize) {
     match tier {
         Tier::Quick => {
             s.ast("K", 3, 32).ast("Q", 2, 32);
+            s.ast_range("K", 4, 4, 32, 2);
             (s, 3)
         }
         Tier::Thorough => {
@@ -262,6 +263,7 @@ impl Check for C20 {
             _ => unreachable!(),
         };
         let sc = gen::scope(scope);
+        let maxlen = if seg.param > 0 { seg.param } else { maxlen };
         let inputs = all_strings(&sc.sigma, maxlen);
         let inputs_c: Vec<Vec<char>> = inputs.iter().map(|s| s.chars().collect()).collect();
         for idx in lo..hi {
